@@ -54,7 +54,7 @@ func main() {
 			run.Count("corpus_cases", 1)
 		}
 	}
-	sets := run.Pick(4000, 400000)
+	sets := run.Pick(4000, 1200000)
 	probes := run.Pick(24, 32)
 	if run.Mode() == "race" {
 		sets = run.Pick(600, 30000)
